@@ -23,6 +23,7 @@ type CliCase struct {
 	Seed  int64       `json:"seed"`
 	More  []*ref.Node `json:"more,omitempty"` // further trees of the input stream
 	First bool        `json:"more_first,omitempty"`
+	ToFile bool       `json:"to_file,omitempty"`
 }
 
 func (c CliCase) stream() []*ref.Node {
@@ -64,7 +65,11 @@ func checkCli(c CliCase) error {
 	for _, m := range c.stream() {
 		text += ref.Write(m) + "\n"
 	}
-	return cli.Differential(args, text, nil, func() (string, error) {
+	of := ""
+	if c.ToFile {
+		of = "-o"
+	}
+	return cli.DifferentialOut(args, text, nil, of, func() (string, error) {
 		out := ""
 		if c.Kind == "resolve" {
 			rand.Seed(c.Seed)
@@ -114,6 +119,7 @@ func TestC07Cli(t *testing.T) {
 				c.More = append(c.More, gen.Tree(t, o))
 			}
 			c.First = rapid.Bool().Draw(t, "morefirst")
+			c.ToFile = rapid.IntRange(0, 2).Draw(t, "tofile") == 0
 			return c
 		},
 		Check: checkCli,
